@@ -605,6 +605,10 @@ func buildWorld(hd []string, ops []string) (wgOps, *fsWorld, bool) {
 				ofs.Remove(untok(t[2]))
 			case "MA":
 				ofs.MkdirAll(untok(t[2]), fs.FileMode(atoi64(t[3])))
+			case "MK":
+				ofs.Mkdir(untok(t[2]), fs.FileMode(atoi64(t[3])))
+			case "RN": // witness histories: the tree after a rename (re-keying of the path index) must enumerate like MemFS'
+				ofs.Rename(untok(t[2]), untok(t[3]))
 			case "WF":
 				ofs.WriteFile(untok(t[2]), []byte(untok(t[3])), fs.FileMode(atoi64(t[4])))
 			}
